@@ -28,13 +28,14 @@ def check(ctx):
     f = require_func(ctx, "bins.bins")
     consts = bins_consts(ctx)
     ctx.explanation = (
-        "bins.bins is interpreted abstractly (intervals + the normal form ((param - a) >> b) + c for every integer) with "
-        "the level loop unrolled over the folded OFFSETS and one/fmt partitioned over {True,False} x {gff,bed}: this "
-        "covers every integer coordinate pair, not sampled ones. Obligations: the constants are the 5-level scheme; in "
-        "single-bin mode every reachable return is an integer; the guards' fallback domain equals the out-of-range domain "
-        "of the statement on all threshold cells; per level the returned bin and the range added to the set equal the "
-        "scheme's formulas. The monotonicity argument that turns these premises into 'a feature's bin is in the bin set "
-        "of every overlapping interval' is written in specs/bins_proof.md. Does not decide tightness ('no coarser than').")
+        "bins.bins is evaluated (own evaluator over the source; gffutils is not imported) on a threshold grid -- every place where some "
+        "level's bin changes, under both start conventions, and the range limits, paired with the stops that straddle the next boundary of "
+        "every level -- and compared with the scheme of the statement written independently in the checker: result type per mode, the "
+        "fallback domain, the single bin and the bin set. When the code is inside the subset of the shift-form abstract interpretation "
+        "(intervals + the normal form ((param - a) >> b) + c, level loop unrolled over the folded OFFSETS, one/fmt partitioned) the same "
+        "obligations are also discharged for every integer pair; otherwise a NOTE says the grid alone decided. The folded constants are "
+        "compared with the 5-level scheme. The monotonicity argument that turns the per-level formulas into 'a feature's bin is in the bin "
+        "set of every overlapping interval' is written in specs/bins_proof.md. Does not decide tightness beyond the grid.")
     # ------------------------------------------------------------------ R1
     offs = consts["OFFSETS"]
     ok = list(offs) == [spec_offset(k) for k in range(LEVELS)]
@@ -56,6 +57,65 @@ def check(ctx):
            "defaults are the gff convention and single-bin mode", func=f,
            sig="defaults fmt=%s one=%s" % (getattr(fmt_d, "value", None), getattr(one_d, "value", None)))
     mx = 2 ** (FINEST + STEP * (LEVELS - 1))
+    # ------------------------------------------------ R2 / R3 / R4 decided on the threshold grid
+    grid_decision(ctx, f)
+    # ------------------------------------------------ ... and for every integer pair, when the code is in the subset of
+    # the shift-form interpretation (intervals + ((param - a) >> b) + c): same obligations, "for all" strength
+    n0 = len(ctx.obs)
+    from .. import AnalysisError
+    from ..binsai import Unsup
+    try:
+        _forall(ctx, f, consts, mx)
+        ctx.extra["for_all_integer_pairs"] = True
+    except (Unsup, AnalysisError) as e:
+        del ctx.obs[n0:]
+        ctx.extra["for_all_integer_pairs"] = False
+        ctx.note("the shift-form interpretation does not cover this formulation of bins.bins (%s): decided on the threshold grid only" % e)
+    ctx.exhaustive = bool(ctx.extra.get("for_all_integer_pairs"))
+    # ------------------------------------------------------------------ R5: a Feature's stored bin is bins(start, end)
+    from .c06 import _r3_bin_provenance
+    n0 = len(ctx.obs)
+    _r3_bin_provenance(ctx)
+    for o in ctx.obs[n0:]:
+        o.rule = "C12.R5"
+
+
+def grid_decision(ctx, f):
+    """bins.bins evaluated on every pair of the threshold grid (all places where some level's bin changes, both start
+    conventions, the range limits) and compared with the scheme of the statement."""
+    from ..binsmodel import bins_on_grid, spec_bins, grid_pairs
+    if "bins_grid" not in ctx.extra:
+        ctx.extra["bins_grid"] = bins_on_grid(ctx, ctx.tier)
+    grid = ctx.extra["bins_grid"]
+    ctx.floor("R4", len(grid), 4000, "grid evaluations of bins.bins")
+    for fmt in ("gff", "bed"):
+        coord = {"gff": 1, "bed": 0}[fmt]
+        for one in (True, False):
+            rows = [g for g in grid if g[0] == fmt and g[1] == one]
+            wrong_type = [g for g in rows if (one and not isinstance(g[4], int)) or (not one and not isinstance(g[4], frozenset))]
+            ctx.ob("R2", not wrong_type, "with one=%s every coordinate pair of the grid yields %s (fmt=%s)" % (one, "one integer" if one else "a set of integers", fmt), func=f,
+                   sig="one=%s fmt=%s: %s" % (one, fmt, "always %s" % ("an int" if one else "a set") if not wrong_type else "bins(%d, %d) is %r" % (wrong_type[0][2], wrong_type[0][3], wrong_type[0][4])))
+            outside = lambda g: g[2] < coord or g[3] < 0 or g[2] >= 2 ** 29 or g[3] >= 2 ** 29
+            fb = [g for g in rows if outside(g) and g[4] != (1 if one else frozenset({1}))]
+            ctx.ob("R3", not fb, "out-of-range coordinates (start < %d, stop < 0, either >= 2**29) return the whole-chromosome bin (fmt=%s, one=%s)" % (coord, fmt, one), func=f,
+                   sig="fallback fmt=%s one=%s: %s" % (fmt, one, "bin 1" if not fb else "bins(%d, %d) = %s" % (fb[0][2], fb[0][3], _short(fb[0][4]))))
+            bad = [g for g in rows if not outside(g) and (set(g[4]) if isinstance(g[4], frozenset) else g[4]) != spec_bins(g[2], g[3], fmt, one)]
+            what = "the finest level on which start and stop share a bin: offset_k + ((start - %d) >> (17 + 3k))" % coord if one else \
+                "bin 1 and, per level, range(offset_k + ((start - %d) >> s_k), offset_k + (stop >> s_k) + 1)" % coord
+            ctx.ob("R4", not bad, "in range, bins(start, stop, fmt=%s, one=%s) is %s, on all %d grid pairs" % (fmt, one, what, len(rows)), func=f,
+                   sig="fmt=%s one=%s: scheme values on the grid" % (fmt, one) if not bad else
+                   "fmt=%s one=%s: bins(%d, %d) = %s, the scheme gives %s" % (fmt, one, bad[0][2], bad[0][3], _short(bad[0][4]), _short(spec_bins(bad[0][2], bad[0][3], fmt, one))))
+    ctx.extra["grid_pairs"] = len(grid)
+
+
+def _short(v):
+    if isinstance(v, (set, frozenset)):
+        xs = sorted(v)
+        return "{%s%s}" % (", ".join(map(str, xs[:8])), ", ... %d more" % (len(xs) - 8) if len(xs) > 8 else "")
+    return repr(v)
+
+
+def _forall(ctx, f, consts, mx):
     # ----------------------------------------------------------- R2 / R4
     bi = BinsInterp(ctx, f, consts)
     n_ret = 0
@@ -160,13 +220,6 @@ def check(ctx):
                                                           "differs from the out-of-range domain"),
                detail=None if cex is None else "at start=%(start)d stop=%(stop)d the guards say %%s, the statement says %%s" % cex % (
                    "fallback" if pred(cex) else "in range", "out of range" if spec(cex) else "in range"))
-    ctx.exhaustive = True
-    # ------------------------------------------------------------------ R5: a Feature's stored bin is bins(start, end)
-    from .c06 import _r3_bin_provenance
-    n0 = len(ctx.obs)
-    _r3_bin_provenance(ctx)
-    for o in ctx.obs[n0:]:
-        o.rule = "C12.R5"
 
 
 def _witness(r):
